@@ -573,10 +573,12 @@ def generate(unit: Unit, canary=None) -> Generated:
         src = unit.src(spec['file'])
         lo, hi = 0, None
         if spec['inside']:
-            outer = src.find(spec['inside'])
-            if len(outer) != 1:
-                raise LostAnchor(f"{spec['file']}: enclosing `{spec['inside']}` found {len(outer)} times")
-            lo, hi = src.body_range(outer[0])
+            # `mod a/mod b`: a chain of enclosing items, outermost first
+            for sel in spec['inside'].split('/'):
+                outer = src.find(sel, lo, hi)
+                if len(outer) != 1:
+                    raise LostAnchor(f"{spec['file']}: enclosing `{sel}` found {len(outer)} times")
+                lo, hi = src.body_range(outer[0])
         cands = src.find(spec['selector'], lo, hi)
         # several impls/fns with the same header are disambiguated by cfg: keep those not under cfg(not(feature in cfg)) etc. -> emit all
         if not cands:
@@ -734,7 +736,11 @@ def _emit_item(unit, g, src, it, iid, label, a, fnq, emit, canary, spec):
                 if r is None:
                     raise LostAnchor(f'{fnq}: match arm `{pat}` #{occ} not found (arm rewrite)')
                 must = [x for x in rws if len(x) == 3]
-                alts = [x[:3] for x in rws if len(x) == 4]      # (old, new, reason, 'alt'): a group of alternatives, at least one must match
+                alts = [x[:3] for x in rws if len(x) == 4 and x[3] == 'alt']      # (old, new, reason, 'alt'): a group of alternatives, at least one must match
+                opts = [x[:3] for x in rws if len(x) == 4 and x[3] == 'opt']      # (old, new, reason, 'opt'): applied where present (a std operator without a Verus
+                #                                                                     spec: if the code no longer uses it there is nothing to rewrite; if it does and the
+                #                                                                     rewrite is missing, Verus rejects the file -> undecided, never a silent pass)
+                apply_rewrites_tokens(src, r[2], r[3], opts, em, rw_applied, label + f' arm `{pat}`')
                 n0 = len(rw_applied)
                 apply_rewrites_tokens(src, r[2], r[3], must, em, rw_applied, label + f' arm `{pat}`')
                 if len(rw_applied) - n0 != len(must):
